@@ -883,7 +883,7 @@ def r14_3(ctx):
     ctx.ob("no-files-means-stdin", empty, site(v.main), "an empty path list yields one stdin input")
 
 
-@rule("R14.4", 6, "mmap failure falls back to the reader; open errors are returned; each input variant feeds the matching translate_* call unchanged", ["C14"])
+@rule("R14.4", 6, "mmap failure falls back to the reader; open errors are returned; each input variant feeds the matching translate_* call unchanged", ["C14", "C05"])
 def r14_4(ctx):
     v = cliview.view(ctx.facts)
     sup = v.sup
